@@ -137,15 +137,34 @@ def patterns_deep():
 
 
 @lru_cache(maxsize=None)
+def sibling_terms(other):
+    f = FILL["f"][0]
+    return [("Call", f, T(A)), ("Call", f, T(B_)), ("Power", A, B_), ("Power", B_, A),
+            ("Power", A, C(2)), mk(other, [A, B_]), mk(other, [B_, A]), mk(other, [A, C(2)]),
+            mk(other, [B_, C(1)])]
+
+
+@lru_cache(maxsize=None)
+def patterns_siblings3():
+    """Sums / products of THREE compound operands over a and b: with the renamings that permute
+    the pattern's own names, an operand can meet its own verbatim copy in the target although it
+    has to be paired with another operand."""
+    out = []
+    for tag, other in (("Sum", "Product"), ("Product", "Sum")):
+        for cs in itertools.product(sibling_terms(other), repeat=3):
+            s = mk(tag, cs)
+            if first_occurrence_canonical(s, ("a", "b")):
+                out.append(s)
+    return tuple(out)
+
+
+@lru_cache(maxsize=None)
 def patterns_siblings():
     """Sums / products whose operands are two compound terms sharing variables (and optionally a
     third plain variable c): bindings made in one operand must agree with the other's."""
-    f = FILL["f"][0]
     out = []
     for tag, other in (("Sum", "Product"), ("Product", "Sum")):
-        sib = [("Call", f, T(A)), ("Call", f, T(B_)), ("Power", A, B_), ("Power", B_, A),
-               ("Power", A, C(2)), mk(other, [A, B_]), mk(other, [B_, A]), mk(other, [A, C(2)]),
-               mk(other, [B_, C(1)])]
+        sib = sibling_terms(other)
         for c1, c2 in itertools.product(sib, repeat=2):
             for extra in ((), (C_,)):
                 s = mk(tag, [c1, c2, *extra])
@@ -1003,7 +1022,8 @@ class C16(Check):
             "Sum/Product (2-3 operands), Quotient, Power, Call, Subscript, Comparison (<, ==), If with "
             "leaves a b c 1 2 (one representative per variable renaming), every (parent, position, "
             "child) nesting of these in two leaf schemes (one repeats a variable across the levels), "
-            "and sums/products of two compound operands sharing variables (thorough: also all "
+            "and sums/products of two compound operands sharing variables (for the renamings, into a b c x, also of "
+            "three compound operands over a b) (thorough: also all "
             "depth-3 trees over Sum2 Product2 Power Call1 Subscript with leaves a b 1); candidate "
             "sets = every subset of the pattern's variables (nestings: every subset of a b c, and all "
             "variables); targets = (i) every instance under every assignment of the candidates to "
@@ -1084,6 +1104,8 @@ class C16(Check):
                                        for K in candidate_sets(P, full=(tier == "thorough")))),
             ("u-indep", lambda: (("indep", P, K) for P in patterns_depth2()
                                  for K in candidate_sets(P))),
+            ("u-rename-siblings3", lambda: (("ren", P, K, RENAME_TO_RHS) for P in patterns_siblings3()
+                                            for K in candidate_sets(P, full="few"))),
             ("u-rhs", lambda: (("rhs", P, K) for P in patterns_depth2()
                                for K in candidate_sets(P))),
             ("u-rhs-rename", lambda: (("renrhs", P, K) for P in patterns_depth2()
